@@ -331,17 +331,30 @@ func c18Sign(r *core.Result, c core.Case, env *core.Env) {
 			return
 		}
 		msg := randBig(rg, ref.SecpN)
-		w := sim.ECDSASigning(env.Seed+int64(step), session.d, t, msg, sim.SignOpts{KDD: delta, Shuffle: true})
-		w.Run(sim.StartsThen(sim.Random), nil)
-		outs, missing := sigOuts(w)
-		if errs := errorsOf(w); len(errs) > 0 || len(missing) > 0 {
-			r.Fail("kdd:sign-failed", "signing with a derivation offset failed (path %v, signers %v): %v %v", path, sel, core.Clip(strings.Join(errs, " | "), 300), missing)
-			return
-		}
-		before := r.Obs["signatures_verified"]
-		ecdsaSigOracle(r, cur.Key, msg, 0, outs)
-		if r.Obs["signatures_verified"] > before {
-			r.Count("child_key_signatures", 1)
+		adjusted := snapshotECDSA(session.d) // the adjusted key data the application holds for this child key
+		var outs []*common.SignatureData
+		// two sessions with the same adjusted in-memory key data: signing must not change what it was given
+		for again := 0; again < 2; again++ {
+			if again == 1 {
+				msg = randBig(rg, ref.SecpN)
+			}
+			w := sim.ECDSASigning(env.Seed+int64(step)+int64(1000*again), session.d, t, msg, sim.SignOpts{KDD: delta, Shuffle: true})
+			w.Run(sim.StartsThen(sim.Random), nil)
+			var missing []string
+			outs, missing = sigOuts(w)
+			if errs := errorsOf(w); len(errs) > 0 || len(missing) > 0 {
+				r.Fail("kdd:sign-failed", "signing with a derivation offset failed (path %v, signers %v, session %d with this key data): %v %v", path, sel, again+1, core.Clip(strings.Join(errs, " | "), 300), missing)
+				return
+			}
+			before := r.Obs["signatures_verified"]
+			ecdsaSigOracle(r, cur.Key, msg, 0, outs)
+			if r.Obs["signatures_verified"] > before {
+				r.Count("child_key_signatures", 1)
+			}
+			if d := diffECDSA(adjusted, session.d); d != "" {
+				r.Fail("kdd:session-key-modified", "signing with a derivation offset changed the key data it was given (session %d): %s", again+1, d)
+				return
+			}
 		}
 		rr, ss := new(big.Int).SetBytes(outs[0].R), new(big.Int).SetBytes(outs[0].S)
 		if ref.ECDSAVerify(parent, msg, rr, ss) {
@@ -545,12 +558,17 @@ func c20Run(c core.Case, env *core.Env) core.Result {
 				r.Fail("history:kdd-adjust", "UpdatePublicKeyAndAdjustBigXj: %v", err)
 				return r
 			}
+			adjusted := snapshotECDSA(session.d)
 			w := sim.ECDSASigning(env.Seed+int64(op), session.d, t, msg, sim.SignOpts{KDD: delta})
 			nonceTap(w, nonces)
 			w.Run(sim.StartsThen(sim.FIFO), nil)
 			outs, missing := sigOuts(w)
 			if errs := errorsOf(w); len(errs) > 0 || len(missing) > 0 {
 				r.Fail("history:kdd-sign-failed", "operation %d: signing with an offset failed: %s", op, core.Clip(strings.Join(errs, " | "), 300))
+				return r
+			}
+			if d := diffECDSA(adjusted, session.d); d != "" {
+				r.Fail("history:key-modified", "operation %d (sign-offset): the session changed the key data it was given: %s", op, d)
 				return r
 			}
 			ecdsaSigOracle(&r, ref.Pt{X: child.X, Y: child.Y}, msg, 0, outs)
